@@ -82,6 +82,7 @@ pub struct Conn {
     /// samples of this pair currently held (incl. orphans)
     pub borrowed: usize,
     pub buf: usize,
+    #[allow(dead_code)]
     pub hreq: usize,
 }
 
@@ -173,7 +174,7 @@ impl Model {
     }
 
     /// enqueue with the documented full-buffer behaviour; true = delivered
-    fn enqueue(c: &mut Conn, seq: Seq, overflow: bool) -> bool {
+    pub fn enqueue(c: &mut Conn, seq: Seq, overflow: bool) -> bool {
         if c.fifo.len() < c.buf {
             c.fifo.push_back(seq);
             true
@@ -244,11 +245,10 @@ impl Model {
         });
     }
 
-    /// the publisher in slot i sends `seq`: update connections, history, deliver
-    pub fn send(&mut self, cfg: &Cfg, i: usize, seq: Seq) -> SendExpect {
+    /// first half of a send: connections are updated, the sample enters the history
+    pub fn begin_send(&mut self, cfg: &Cfg, i: usize, seq: Seq) {
         self.pub_update(cfg, i);
         self.sends += 1;
-        let pinst = self.p(i).inst;
         if cfg.hist > 0 {
             let p = self.pubs[i].as_mut().unwrap();
             p.history.push_back(seq);
@@ -256,6 +256,12 @@ impl Model {
                 p.history.pop_front();
             }
         }
+    }
+
+    /// the publisher in slot i sends `seq`: update connections, history, deliver
+    pub fn send(&mut self, cfg: &Cfg, i: usize, seq: Seq) -> SendExpect {
+        self.begin_send(cfg, i, seq);
+        let pinst = self.p(i).inst;
         let mut e = SendExpect::default();
         for j in self.alive_subs() {
             let (sinst, sid) = {
@@ -286,6 +292,7 @@ impl Model {
                     }
                     e.unable_to_deliver = true;
                 }
+                Strategy::RetryConsume => unreachable!("RetryConsume sends are judged from the handler log"),
             }
         }
         e
